@@ -12,6 +12,7 @@ import (
 func verifDrain(st *state.State) {
 	ch := st.GetStateUpdatesCh()
 	for {
+		vsymSched() // (goroutine model: the queue's forwarding goroutine runs until it blocks)
 		select {
 		case u := <-ch:
 			if err := st.ApplyUpdate(context.Background(), u); err != nil {
